@@ -41,7 +41,7 @@ func ruleLITTYPE(c *Ctx, r *Report) {
 	}
 	fn := pr.TokToLit
 	r.unit("functions", fnName(fn))
-	paths, complete := c.enumPaths(fn, 2000)
+	paths, complete := c.enumPathsInl(fn, 5000)
 	if !complete {
 		r.bad(rule, "paths", c.pos(fn.Pos()), "too many paths")
 		return
@@ -66,14 +66,14 @@ func ruleLITTYPE(c *Ctx, r *Report) {
 			continue
 		}
 		toks := possibleToks(c, p.Atoms, "$0.Typ")
-		res := c.resolve(p.Ret.Results[0], p.Env)
+		res, re := c.resolveE(p.Ret.Results[0], p.Env)
 		call, isCall := res.(*ssa.Call)
 		var ops []string
 		argKey := ""
 		if isCall && call.Call.StaticCallee() != nil {
 			ops = c.ctorOperator(call.Call.StaticCallee())
 			if len(call.Call.Args) > 0 {
-				argKey = c.key(call.Call.Args[0], p.Env)
+				argKey = c.key(call.Call.Args[0], re)
 			}
 		}
 		var seq []string
@@ -172,6 +172,11 @@ func ruleNODESOURCES(c *Ctx, r *Report) {
 	pt := c.prodTable()
 	allowed := map[*ssa.Function]string{}
 	if pr.TokToLit != nil {
+		for _, f := range c.Funcs {
+			if f != pr.TokToLit && fnPkgPath(f) == pkgRoot && c.reachedOnlyFrom(f, pr.TokToLit, 0) {
+				allowed[f] = "helper of the token→literal function"
+			}
+		}
 		allowed[pr.TokToLit] = "token→literal"
 	}
 	for _, f := range pt.Reducers {
@@ -261,7 +266,7 @@ func ruleNODESOURCES(c *Ctx, r *Report) {
 				nt++
 				typ := c.localTokenTyp(&ssa.UnOp{X: a})
 				key := fnName(f) + "|token-literal|" + typ
-				if f == pr.Parse && typ == "lex.TStart" || f == pr.ParseLoop && typ == "lex.TAnd" {
+				if f == pr.Parse && typ == "lex.TStart" || (f == pr.ParseLoop || c.reachedOnlyFrom(f, pr.ParseLoop, 0)) && typ == "lex.TAnd" {
 					r.ok(rule, key, c.instrPos(in), "documented synthetic token")
 				} else {
 					r.bad(rule, key, c.instrPos(in), "a token of type "+typ+" is fabricated in "+fnName(f)+": operator tokens must come from the lexer (except the start marker and the injected AND)")
@@ -515,6 +520,9 @@ func ruleLOOP(c *Ctx, r *Report) {
 				c.parseLoopProgress(r, rule, key, fn, h, pr)
 			case pr.Err == "" && fn == pr.ReduceM:
 				c.reduceLoopProgress(r, rule, key, fn, h, pr)
+			case pr.Err == "" && c.parserInl(pr).Pred(fn) && c.reachedOnlyFrom(fn, pr.ParseLoop, 0):
+				// a helper method of the parse loop: the same progress argument, cycle by cycle
+				c.parseLoopProgress(r, rule, key, fn, h, pr)
 			default:
 				r.bad(rule, key, pos, fnName(fn)+" contains a loop that is neither a bounded range loop nor one of the lexer/parser loops with a checked progress argument")
 			}
@@ -758,7 +766,7 @@ func (c *Ctx) isRangeHeader(h *ssa.BasicBlock) bool {
 }
 
 func (c *Ctx) parseLoopProgress(r *Report, rule, key string, fn *ssa.Function, h *ssa.BasicBlock, pr *ParserRoles) {
-	cps, complete := c.cyclePaths(fn)
+	cps, complete := c.cyclePathsOpt(fn, c.parserInl(pr))
 	if !complete {
 		r.bad(rule, key, c.pos(fn.Pos()), "too many paths")
 		return
@@ -794,7 +802,7 @@ func (c *Ctx) parseLoopProgress(r *Report, rule, key string, fn *ssa.Function, h
 }
 
 func (c *Ctx) reduceLoopProgress(r *Report, rule, key string, fn *ssa.Function, h *ssa.BasicBlock, pr *ParserRoles) {
-	cps, _ := c.cyclePaths(fn)
+	cps, _ := c.cyclePathsOpt(fn, c.parserInl(pr))
 	n := 0
 	for _, cp := range cps {
 		if cp.head != h {
